@@ -122,6 +122,17 @@ func mySeeds() []*Seed {
 			{Name: "A", T: StructN([]F{{"b", false}, {"n", true}}, []irgen.Term{Ref(P + ".B"), constrained("string")})},
 			{Name: "B", T: StructN([]F{{"flag", true}, {"vals", false}, {"idx", false}}, []irgen.Term{S("bool"), Arr(S("string")), Map(S("int64"))})},
 		}}}},
+		// merge_into under a path of depth 2 (through an inline struct and through a
+		// reference): the merged assignment paths have three items, i.e. a backing
+		// array with spare capacity, and the merged options take structs with
+		// several fields (struct_fields_as_* on merged options)
+		{Name: "nestedmerge", Pkgs: []irgen.PkgSpec{{Pkg: P, EntryPoint: "Root", Objects: []irgen.ObjSpec{
+			{Name: "Root", T: StructN([]F{{"config", true}, {"via", false}}, []irgen.Term{Struct1("options", true, Ref(P+".Opts")), Ref(P + ".Holder")})},
+			{Name: "Holder", T: StructN([]F{{"opts", true}, {"label", false}}, []irgen.Term{Ref(P + ".Opts"), S("string")})},
+			{Name: "Opts", T: StructN([]F{{"range", true}, {"pos", false}, {"on", false}}, []irgen.Term{
+				StructN([]F{{"from", true}, {"to", true}, {"unit", false}}, []irgen.Term{S("string"), S("int64"), S("string")}), Ref(P + ".Pos"), S("bool")})},
+			pos,
+		}}}},
 		// a panel-like object and one composable package (compose rule)
 		{Name: "compose", Pkgs: []irgen.PkgSpec{
 			{Pkg: "dash", EntryPoint: "Panel", Objects: []irgen.ObjSpec{
